@@ -280,8 +280,8 @@ def check_c18(v, d):
     #     seeded 2% of length 3; thorough: all of length 3)
     pargs = ["parse", "-in", sp, "-trailing", "-mutations", "2" if quick else "8", "-enum", "3",
              "-enum-keep", "0.02" if quick else "1", "-subst-keep", "1"]
-    hargs = ["history", "-in", sp] + (["-bases", "40", "-probes", "12", "-random", "400", "-long", "3", "-long-len", "40000", "-long-every", "1000"] if quick
-                                      else ["-bases", "160", "-probes", "30", "-random", "6000", "-long", "8", "-long-len", "150000", "-long-every", "2500", "-sem-rejected", "300"])
+    hargs = ["history", "-in", sp] + (["-bases", "40", "-probes", "12", "-random", "400", "-long", "3", "-long-len", "40000", "-long-every", "1000", "-collected", "60"] if quick
+                                      else ["-bases", "160", "-probes", "30", "-random", "6000", "-long", "8", "-long-len", "150000", "-long-every", "2500", "-sem-rejected", "300", "-collected", "600"])
 
     def part(args, tag, per_chunk):
         trace, st = run_driver("parsedrv", args, d, tag)
@@ -329,7 +329,10 @@ def judge_c18(v, rejects):
             continue
         nrej += 1
         if ev["ev"] == "A":
-            if ev.get("attr_other") or not ev.get("attr"):
+            if ev.get("src") == "collected":
+                # seen only when the Statement of the previous parse was dropped, collected and its memory used again
+                v.reject("history-dependent:previous-statement-collected", brief_a(ev), {"trace_line": ln, "event": ev})
+            elif ev.get("attr_other") or not ev.get("attr"):
                 v.reject("history-dependent:state-outside-hook-closures", brief_a(ev), {"trace_line": ln, "event": ev})
             else:
                 # the difference disappears exactly when the closures of these hook families are rebuilt
